@@ -185,6 +185,7 @@ func (d *DefaultClientDispatcher) messagePump() {
 			// New request was posted
 			if !ok {
 				d.requestQueue.Init()
+				d.pendingRequestState.ClearPendingRequests()
 				d.mutex.Lock()
 				d.requestChannel = nil
 				d.mutex.Unlock()
